@@ -210,6 +210,19 @@ CHECKS["C06"] = dict(
          "errors located at the last child in lazy mode, lazy decode() not reporting identity errors; each subtracted by a region predicate.",
     ref="DESIGN.md 5/C06")
 
+CHECKS["C10"] = dict(
+    technique=TECH + " - call histories (operation x document per step) chosen by symbolic indices on a schema built fresh per path, "
+                     "probe result compared with an unused fresh schema (finite-choice, differential)",
+    category="model_checking",
+    text="For every history of the bound (quick: one step of 8 operations x 6 documents; thorough: two steps) - is_valid, validate, "
+         "iter_errors, strict/lax decode, to_objects, an abandoned iter_errors generator, decode+encode - over documents that use xsi:type "
+         "with complex content inside a key scope, duplicate keys reached through the xsi:type'd content, fixed values, a foreign wildcard "
+         "child and early strict failures, every probe document yields the same verdict, (reason, path) errors and decoded data as on a "
+         "schema that processed nothing; both schema classes.",
+    note="Finite-choice. Schema construction runs with the tracer suspended (it cannot be executed under it); all validation calls are traced. "
+         "Threads are C18 (not applicable).",
+    ref="DESIGN.md 5/C10")
+
 NOT_APPLICABLE = {
     "C18": "quantifies over thread interleavings; no engine of this family here executes Python threads symbolically (CrossHair is "
            "single-threaded); see DESIGN.md section 6",
